@@ -1,12 +1,4 @@
-import DadiVerif.Model.Line
-import DadiVerif.Model.ND
-import DadiVerif.Model.Prelude
-import DadiVerif.Model.Proto
-import DadiVerif.Model.Step
-import DadiVerif.Model.Tridiag
-import DadiVerif.Generated.Coeffs
-import DadiVerif.Lemmas.Line
-import DadiVerif.Lemmas.Step
-import DadiVerif.Lemmas.Tridiag
 import DadiVerif.Props.C02
 import DadiVerif.Driver.Integ
+import DadiVerif.Props.C03
+import DadiVerif.Props.C04
